@@ -277,6 +277,146 @@ template<typename K> static void run_kv1(const std::string& mech, long k, const 
 	else puts("?");
 }
 
+// ---- tree Relocator: a real TreeSet insert into a full root leaf (TreeNode<4, 2>, one memory-manager block per node) -------
+struct PlainLess { template<typename A, typename B> bool operator()(const A& a, const B& b) const { return **reinterpret_cast<int64_t* const*>(&a) < **reinterpret_cast<int64_t* const*>(&b); } };
+
+template<typename E> static void run_tree(size_t n, long k, size_t pos)
+{
+	typedef momo::TreeNode<4, 2, momo::MemPoolParams<1, 0>> TN;
+	typedef momo::TreeTraitsStd<E, PlainLess, false, TN> TT;
+	typedef momo::TreeSet<E, TT, AMM> Set;
+	typedef typename Set::Node Node;
+	const char* outcome = "Ok";
+	{
+		E* arg = lives<E>(10 * pos + 5, 1);      // region 0
+		Set set{ TT(), AMM() };
+		for (size_t j = 0; j < n; ++j) set.Insert(E(int64_t(10 * (j + 1))));
+		size_t nreg0 = g_regs.size();
+		const char* root = reinterpret_cast<const char*>(set.mRootNode);
+		size_t leaf = ~size_t(0);
+		for (auto& r : g_regs) if (r.live && root >= r.base && root < r.base + r.bytes) leaf = r.id;
+		const size_t itemOff = Node::Params::itemOffset, intOff = Node::internalOffset, intSize = Node::Params::internalNodeSize;
+		begin_case(k);
+		try { set.Insert(static_cast<const E&>(*arg)); }
+		catch (...) { outcome = "Exn"; }
+		W().disarm(); W().elogging = false;
+		auto rname = [&] (const Region& r) -> std::string
+			{ if (r.id == 0) return "a"; if (r.id == leaf) return "o"; if (r.id >= nreg0) return "n" + std::to_string(r.id - nreg0); return "?" + std::to_string(r.id); };
+		auto off = [&] (const Region& r) -> size_t { return r.id == 0 ? 0 : (r.bytes >= intSize ? intOff + itemOff : itemOff); };
+		auto lname = [&] (const void* a) -> std::string
+		{
+			const char* p = static_cast<const char*>(a);
+			for (auto it = g_regs.rbegin(); it != g_regs.rend(); ++it)
+				if (p >= it->base && p < it->base + it->bytes) return rname(*it) + "." + std::to_string(size_t(p - it->base - off(*it)) / sizeof(E));
+			return "s.0";
+		};
+		std::map<uint64_t, const void*> addr_of;
+		for (auto& kv : W().slot_of) addr_of[kv.second] = kv.first;
+		std::string out = W().errors.empty() ? std::string(outcome) : ("Stuck(" + W().errors[0] + ")"), evs, blocks;
+		for (auto& e : W().elog)
+		{
+			std::string s;
+			switch (e.kind)
+			{
+			case 'A': s = "A" + rname(g_regs[e.b]); break;
+			case 'D': s = "D" + rname(g_regs[e.b]); break;
+			case 'C': s = "C" + lname(addr_of[e.b]) + ">" + lname(addr_of[e.a]); break;
+			case 'M': s = "M" + lname(addr_of[e.b]) + ">" + lname(addr_of[e.a]); break;
+			case 'X': s = "X" + lname(addr_of[e.a]); break;
+			case 'F': s = "F"; break;
+			default: continue;
+			}
+			if (!evs.empty()) evs += " ";
+			evs += s;
+		}
+		for (auto& r : g_regs)
+		{
+			if (!(r.id == 0 || r.id == leaf || r.id >= nreg0)) continue;
+			if (!blocks.empty()) blocks += " ";
+			if (!r.live) { blocks += rname(r) + "-"; continue; }
+			blocks += rname(r) + "["; bool first = true;
+			for (auto& kv : W().objs)
+			{
+				const char* p = static_cast<const char*>(kv.first);
+				if (p < r.base || p >= r.base + r.bytes) continue;
+				if (!first) blocks += " ";
+				first = false;
+				blocks += std::to_string(size_t(p - r.base - off(r)) / sizeof(E)) + ":" + (kv.second.moved ? std::string("M") : "L" + std::to_string(**reinterpret_cast<int64_t* const*>(kv.first)));
+			}
+			blocks += "]";
+		}
+		printf("%s | %s | %s\n", out.c_str(), evs.c_str(), blocks.c_str());
+	}
+	cleanup_case();
+}
+
+// ---- TreeNode::Remove on a real continuous node with a remover that may throw (TreeNode.h:332-347) -------------------------
+template<typename E> static void run_noderemove(size_t n, long k, size_t index)
+{
+	typedef momo::TreeNode<4, 2, momo::MemPoolParams<1, 0>> TN;
+	typedef momo::TreeTraitsStd<E, PlainLess, false, TN> TT;
+	typedef momo::TreeSet<E, TT, AMM> Set;
+	typedef typename Set::Node Node;
+	const char* outcome = "Ok";
+	{
+		E* ext = block<E>(1);                     // region 0: where the remover copies the removed item to
+		Set set{ TT(), AMM() };
+		for (size_t j = 0; j < n; ++j) set.Insert(E(int64_t(10 * (j + 1))));
+		Node* node = set.mRootNode;
+		size_t leaf = ~size_t(0);
+		for (auto& r : g_regs) if (r.live && reinterpret_cast<const char*>(node) >= r.base && reinterpret_cast<const char*>(node) < r.base + r.bytes) leaf = r.id;
+		const size_t itemOff = Node::Params::itemOffset;
+		auto remover = [ext] (E& item) { ::new(static_cast<void*>(ext)) E(static_cast<const E&>(item)); item.~E(); };
+		begin_case(k);
+		try { node->Remove(*set.mNodeParams, index, remover); --set.mCount; }
+		catch (...) { outcome = "Exn"; }
+		W().disarm(); W().elogging = false;
+		auto lname = [&] (const void* a) -> std::string
+		{
+			const char* p = static_cast<const char*>(a);
+			if (p >= g_regs[0].base && p < g_regs[0].base + g_regs[0].bytes) return "a.0";
+			const Region& r = g_regs[leaf];
+			if (p >= r.base && p < r.base + r.bytes) return "o." + std::to_string(size_t(p - r.base - itemOff) / sizeof(E));
+			return "s.0";
+		};
+		std::map<uint64_t, const void*> addr_of;
+		for (auto& kv : W().slot_of) addr_of[kv.second] = kv.first;
+		std::string out = W().errors.empty() ? std::string(outcome) : ("Stuck(" + W().errors[0] + ")"), evs, blocks;
+		for (auto& e : W().elog)
+		{
+			std::string s;
+			switch (e.kind)
+			{
+			case 'C': s = "C" + lname(addr_of[e.b]) + ">" + lname(addr_of[e.a]); break;
+			case 'M': s = "M" + lname(addr_of[e.b]) + ">" + lname(addr_of[e.a]); break;
+			case 'X': s = "X" + lname(addr_of[e.a]); break;
+			case 'F': s = "F"; break;
+			default: continue;
+			}
+			if (!evs.empty()) evs += " ";
+			evs += s;
+		}
+		for (size_t rid : { size_t(0), leaf })
+		{
+			const Region& r = g_regs[rid];
+			if (!blocks.empty()) blocks += " ";
+			blocks += (rid == 0 ? "a[" : "o["); bool first = true;
+			for (auto& kv : W().objs)
+			{
+				const char* p = static_cast<const char*>(kv.first);
+				if (p < r.base || p >= r.base + r.bytes) continue;
+				if (!first) blocks += " ";
+				first = false;
+				blocks += std::to_string(size_t(p - r.base - (rid == 0 ? 0 : itemOff)) / sizeof(E)) + ":" + (kv.second.moved ? std::string("M") : "L" + std::to_string(**reinterpret_cast<int64_t* const*>(kv.first)));
+			}
+			blocks += "]";
+		}
+		printf("%s | %s | %s\n", out.c_str(), evs.c_str(), blocks.c_str());
+		if (ext && W().objs.count(ext)) ext->~E();
+	}
+	cleanup_case();
+}
+
 int main()
 {
 	g_arena = static_cast<char*>(std::malloc(ARENA));
@@ -285,6 +425,18 @@ int main()
 	{
 		std::istringstream is(line); std::string mech, cat; size_t n = 0; long k = -1;
 		is >> mech >> cat >> n >> k;
+		if (mech == "noderemove")
+		{
+			size_t index = 0; is >> index;
+			if (cat == "N") run_noderemove<kit::ElemNtm>(n, k, index); else puts("?");
+			fflush(stdout); continue;
+		}
+		if (mech == "treeins")
+		{
+			size_t pos = 0; is >> pos;
+			if (cat == "N") run_tree<kit::ElemNtm>(n, k, pos); else if (cat == "C") run_tree<kit::ElemCpo>(n, k, pos); else if (cat == "T") run_tree<kit::ElemThm>(n, k, pos); else puts("?");
+			fflush(stdout); continue;
+		}
 		if (mech == "kvreloc" || mech == "kvcreate")
 		{
 			std::string cv; is >> cv;
